@@ -107,7 +107,10 @@ def make_raiser(case, secret):
     box = {}
     if f['kind'] == 'fault':
         cls = f['cls']
-        sub = (lambda base: type('My' + base.__name__, (base,), {})) if f.get('sub') else (lambda base: base)
+        ded = {'toolong': 'Client.RequestTooLong', 'notfound': 'Client.ResourceNotFound', 'notallowed': 'Client.RequestNotAllowed',
+               'auth': 'Client.InvalidCredentialsError', 'schemaval': 'Client.SchemaValidationError'}
+        own = {'CODE': pool.code_str(f['code'])} if cls in ded and pool.code_str(f['code']) != ded[cls] else {}
+        sub = (lambda base: type('My' + base.__name__, (base,), dict(own))) if f.get('sub') else (lambda base: base)
         if cls == 'toolong': exc = sub(RequestTooLongError)()
         elif cls == 'notfound': exc = sub(ResourceNotFoundError)('thing')
         elif cls == 'notallowed': exc = sub(RequestNotAllowed)('nope')
